@@ -2,7 +2,7 @@
 CHECK = {
     "pkg": "udp", "files": ["udp/c26_test.go"], "tags": "", "run": "^TestC26",
     "quick": {"scale": 1, "shards": 1, "timeout": 600},
-    "thorough": {"scale": 10, "shards": 8, "timeout": 1500},
+    "thorough": {"scale": 15, "shards": 8, "timeout": 1500},
     "rule": "a case is one (batch, kernel script) pair: a socketless batchWriter (v4/v6 socket, GSO on/off, maxGSOSegments "
             "63/127, scratch 1..128 slots, debug logging on/off) is reused for 1-3 batches of 0..400 datagrams built from "
             "groups (equal runs, run + shorter tail, >63/>127 small segments, runs crossing 65000 bytes, shrinking, growing, "
@@ -17,9 +17,10 @@ CHECK = {
         "model kernel: datagram j is accepted when an entry whose wire segmentation contains it lies inside a returned count; "
         "a UDP_SEGMENT entry is cut every gso_size bytes, an entry without it is one datagram",
         "segment/byte limits are the writer's documented ones (maxGSOSegments of the writer, 65000 bytes)",
-        "'survive offload rejections' is read as the documented replay (WriteBatch comment): after EIO on a multi-datagram "
-        "entry no later entry is multi-datagram and that run's datagrams are offered again singly (unless the call ended "
-        "with the no-progress error); completeness of delivery after other faults is NOT asserted",
+        "only what the statement demands is asserted: at-most-once acceptance, returned count == accepted datagrams, "
+        "per-destination order, every entry addressed to its datagrams' own destination, run geometry and limits, datagrams "
+        "the socket cannot address never accepted; what the writer does after an offload rejection (fallback strategy) and "
+        "completeness of delivery after faults are NOT asserted",
         "empty datagrams have no address to identify them by; they are matched to the next unsent empty datagram of the same "
         "destination in batch order",
         "sendFn outcomes are those sendmmsg(2) can produce: 1..n with nil error, <=0 with an errno, or 0 with nil",
